@@ -179,6 +179,33 @@ def inpkg_overlay(pkg, names=None, sub=None):
     return m
 
 
+TIME_SEL = re.compile(r"\btime\.(Now|Since|Until|Sleep|NewTimer|AfterFunc|After|Timer)\b")
+
+
+def vtime_overlay(work, rel_files):
+    """the `-time` rewrite pass (DESIGN.md E4): in copies of the given working-tree files every use of
+    time.Now/Since/Until/Sleep/NewTimer/AfterFunc/After/Timer is redirected to the virtual clock vtime;
+    everything else (time.Duration, time.Time, constants) is left alone. Returns an overlay mapping."""
+    m = {}
+    for rel in rel_files:
+        src = open(os.path.join(REPO, rel)).read()
+        out, n = TIME_SEL.subn(lambda mm: "vtime." + mm.group(1), src)
+        if n == 0:
+            continue
+        imp = '\t"%s/verifshim/vtime"\n' % MODULE
+        if "import (" in out:
+            out = out.replace("import (\n", "import (\n" + imp, 1)
+        else:
+            out = re.sub(r'import "time"\n', 'import (\n\t"time"\n' + imp + ')\n', out, 1)
+        if not re.search(r"\btime\.", out):
+            out = re.sub(r'\n\t"time"\n', "\n", out, 1)
+        p = work.path("vtime_" + rel.replace("/", "_"))
+        with open(p, "w") as f:
+            f.write(out)
+        m[rel] = p
+    return m
+
+
 def go_test(work, overlay, pkg, run, env, timeout=3000, tags=None, race=False, extra=None):
     cmd = ["go", "test", "-vet=off", "-count=1", "-overlay", overlay, "-run", run,
            "-timeout", "%ds" % timeout]
